@@ -87,7 +87,16 @@ def r11(ctx, rid="R1.1"):
         if R.is_test_util(on):
             continue
         n += 1
-        ctx.ob(rid, on in seed_allowed, f"{on}/reads/InMemorySigner.commitment_seed",
+        ok_reader = on in seed_allowed
+        if not ok_reader:
+            # the same re-derivation written in place (the stub's helper inlined into its caller): the seed read is
+            # handed straight to InMemorySigner::new and goes nowhere else
+            fvb = fnview(ctx, b, policy=False)
+            reads_here = [1 for b2, _, _, _ in R.field_reads(ctx.prog, "InMemorySigner", "commitment_seed") if b2 is b]
+            news = [c for _, c in b.calls() if c.callee and c.callee.name.endswith("InMemorySigner::new")]
+            fed = sum(1 for c in news for a in c.args if R.mentions_field(fvb.expr(a), "InMemorySigner", "commitment_seed"))
+            ok_reader = bool(news) and fed >= len(reads_here)
+        ctx.ob(rid, ok_reader, f"{on}/reads/InMemorySigner.commitment_seed",
                f"`{on}` reads InMemorySigner.commitment_seed (root of all per-commitment secrets)",
                where=f"{b.file}:{obj.line}", sample=seed_allowed.get(on))
     ctx.floor(rid, "reads of commitment_seed", n, 1)
